@@ -201,10 +201,16 @@ def main():
         except Exception as e:
             # the implementation under test may behave so strangely that a later stage of the driver trips over it: what was
             # found before that point is still a finding; without any finding this is an infrastructure problem
-            if not (ctx.violations or ctx.breaks): raise
+            if isinstance(e, (MemoryError, OSError)): raise
             import traceback
-            ctx.say('driver stopped after its findings: %s: %s' % (type(e).__name__, str(e)[:200]))
-            ctx.stats['driver_exception_after_findings'] = traceback.format_exc()[-1500:]
+            tb = traceback.format_exc()[-1500:]
+            if not (ctx.violations or ctx.breaks):
+                # no finding yet: the driver runs to completion on the unchanged tree for every seed, so an exception raised while
+                # it drives the implementation means the implementation answered something the driver cannot interpret - the
+                # property is no longer shown to hold (reported without a failing input; the traceback is in the replay file)
+                ctx.breaks.append(dict(kind='driver', name='check driver could not complete: %s' % type(e).__name__, detail=tb))
+            ctx.say('driver stopped: %s: %s' % (type(e).__name__, str(e)[:200]))
+            ctx.stats['driver_exception'] = tb
     except Infra as e:
         print('INFRASTRUCTURE: %s' % e)
         return 2
